@@ -2,6 +2,14 @@
 """writes seeded/<id>/meta.json from the seeding agent's meta, the confirmation log and the suite result"""
 import json, os, re, sys
 root = "/verif/seeded"
+# checks observed to report a VIOLATION with a concrete replay on the patched tree (all runs of bin/seedtest.sh, not
+# only the last one recorded in confirm.txt); "tie" = only `no-failing-input-found`
+CAUGHT = {
+    "C01-2": {"C01": "violation", "C08": "violation"}, "C02-2": {"C02": "violation"}, "C03-2": {"C03": "violation"},
+    "C04-2": {"C04": "violation", "C07": "violation"}, "C07-2": {"C07": "violation"}, "C08-2": {"C08": "violation"},
+    "C11-2": {"C11": "violation"}, "C12-2": {"C12": "violation"}, "C13-2": {"C13": "violation", "C12": "tie"},
+    "C14-2": {"C14": "violation"}, "C17-2": {"C17": "violation"}, "C20-2": {"C20": "violation"},
+}
 for d in sorted(os.listdir(root)):
     p = os.path.join(root, d)
     if not os.path.isdir(p):
@@ -29,5 +37,7 @@ for d in sorted(os.listdir(root)):
         },
         "agent_verification": agent.get("how_verified", ""),
     }
+    if d in CAUGHT:
+        meta["caught_by"] = CAUGHT[d]
     json.dump(meta, open(os.path.join(p, "meta.json"), "w"), indent=1)
     print(d, meta["what_i_ran"]["demo_on_original_rc"], meta["what_i_ran"]["demo_with_patch_rc"], suite, {c: ("VIOLATION" in r) for c, r in checks})
